@@ -54,6 +54,8 @@ def unit(job, variant, pi, seed, length):
                                                "action": rec["action"], "detail": p,
                                                "plan": [command_text(x) for x in done]})
     out["sample"] = {"job": job, "plan": [command_text(c) for c in cmds][:10]}
+    creqs, cexp, out["mstats"] = complib.harvest_model_requests(cmds, job, variant, per_key=10, views=False)
+    out["comp_reqs"] = list(zip(creqs, cexp))
     out["synthetic"] = 0
     if pi == 0:
         # latent rejections: the same component classes with a positive cooldown where the shipped data has none
@@ -172,6 +174,7 @@ def main(ck: Check):
     tot = {"dispatches": 0, "rejections": 0, "listened_rejections": 0, "fork_dispatches": 0, "fork_errors": 0, "synthetic": 0}
     by_class: dict[str, dict] = {}
     samples, reqs, expect = [], [], []
+    mstats: dict = {}
     for args, out in pmap(unit, work, ck.budget_s * 0.7):
         if args is None:
             ck.notes.append(f"budget reached: {out}")
@@ -188,9 +191,10 @@ def main(ck: Check):
             ck.add_failing(f)
         if len(samples) < 3:
             samples.append(out["sample"])
-        for rq, ex in out["tag_reqs"][:3] + out["map_reqs"][:6]:
+        for rq, ex in out["tag_reqs"][:3] + out["map_reqs"][:6] + out["comp_reqs"]:
             reqs.append(rq)
             expect.append(ex)
+        complib.merge_stats(mstats, out["mstats"])
 
     with ck.locked():
         proved = ck.prove("Simaple.Props.C07")
@@ -203,7 +207,7 @@ def main(ck: Check):
             if r.get("ok") != ex:
                 disagreements += 1
                 if disagreements <= 3:
-                    ck.broken.append({"kind": "correspondence", "point": f"Model.Dispatch {rq['fn']} vs component/base.py",
+                    ck.broken.append({"kind": "correspondence", "point": f"model ({rq['fn']}) vs simaple.simulate.component",
                                       "request": rq, "model": r, "implementation": ex})
     ck.coverage.update({
         "evaluations": tot["dispatches"],
@@ -219,6 +223,7 @@ def main(ck: Check):
         "rejections_by_class_and_reducer": by_class,
         "model_requests": len(reqs),
         "model_disagreements": disagreements,
+        "model_coverage": mstats,
     })
     ck.assumptions += ["per-class reducer theorems cover the modelled component classes only; unmodelled classes are covered "
                        "by the dispatcher proxy (exploration) — see coverage.modelled_classes"]
